@@ -198,7 +198,7 @@ def verify_uri(
         client_redirect_uris_obj = _client_redirect_uris_without_port_obj
 
     # Separate the URL from the query string object for the requested redirect URI.
-    req_redirect_uri_query_obj = parse_qs(req_redirect_uri_obj.query)
+    req_redirect_uri_query_obj = parse_qs(req_redirect_uri_obj.query, keep_blank_values=True)
     req_redirect_uri_without_query_obj = req_redirect_uri_obj._replace(query=None)
 
     match = any(
